@@ -250,6 +250,46 @@ Formula = simple_family(
     ["MinRoundTrip", "FullRoundTrip"])
 
 
+class ColAttrs:
+    PROPS = ["C29"]
+    ASSUMPTIONS = ["initial column layouts are written into worksheet.cols of a cloned workbook (public types) and loaded with Model::from_workbook - what an imported file produces; layouts whose observed attributes differ from the spec's reading are skipped and counted (none today)",
+                   "a hidden column (row) is observed with width (height) 0 and must show its stored size again when unhidden",
+                   "actions through Model::set_column_width / set_column_hidden / set_column_style / delete_column_style and the row twins; styles compared by value",
+                   "columns 1..5 observed, actions on columns 2, 3, 5; quick: every layout x every sequence of 2 actions; thorough: 3 actions"]
+
+    @staticmethod
+    def run(d, tier, seed):
+        res = {"violations": {"C29": []}, "parts": {}}
+        steps = 2 if tier == "quick" else 3
+        tot = {"cases": 0, "checks": 0, "distinct_nontrivial": 0, "no_verdict": 0, "samples": [], "states": 0, "transitions": 0}
+        seen = {}
+        for axis in ("col", "row"):
+            cfg = open(os.path.join(SPEC, "ColAttrs.cfg")).read().replace('Axis = "col"', f'Axis = "{axis}"').replace("MaxSteps = 2", f"MaxSteps = {steps}")
+            out, st, dt = run_tlc("ColAttrs.tla", cfg, d, "attrs_" + axis, workers=8)
+            path = os.path.join(d, axis + ".ndjson")
+            n = cases_from(out, path, tag="BEHAVIOUR")
+            rr, dt2 = icverif(["colattrs", "--in", path, "--out", os.path.join(d, "out_" + axis)], timeout=3400)
+            os.remove(path)
+            res["parts"][axis] = {"behaviours": n, "tlc_states": st["distinct"], "steps_executed": rr["checks"], "mismatches": rr["mismatches"], "seconds": round(dt + dt2, 1)}
+            for k in ("cases", "checks", "distinct_nontrivial", "no_verdict"):
+                tot[k] += rr[k]
+            tot["samples"] += rr["samples"][:1]
+            tot["states"] += st["distinct"]
+            tot["transitions"] += st["generated"]
+            collect(res, "C29", os.path.join(d, "out_" + axis, "mismatches.ndjson"), seen)
+        res["tot"] = tot
+        return res
+
+    @staticmethod
+    def evidence_for(prop, res):
+        t = res["tot"]
+        return {"states": t["states"], "transitions": t["transitions"], "traces_validated_against_impl": t["cases"],
+                "samples": t["samples"] or [{"note": "none"}], "evaluations": t["checks"], "distinct_nontrivial": t["distinct_nontrivial"],
+                "rule": "every behaviour of ColAttrs.tla (every initial descriptor layout x every action sequence of the stated length, columns and rows) replayed with the per-column (width, hidden, style) vector compared after every step; "
+                        "distinct_nontrivial = distinct (action kind, initial layout) pairs whose step changed the observed vector.",
+                "exhaustive": True, "parts": res["parts"], "no_verdict": t["no_verdict"], "spec_properties": ["Independence"]}
+
+
 def replay_case(prop, path):
     with open(path) as f:
         payload = json.load(f)
@@ -268,4 +308,4 @@ def _wrap(cls, name):
     return (name, M)
 
 
-TABLE = {"C21": _wrap(Calendar, "calendar"), "C22": _wrap(Grid, "grid"), "C23": _wrap(Lang, "lang"), "C34": _wrap(F4, "f4"), "C19": _wrap(NumberInput, "numinput"), "C20": _wrap(NumberFormat, "numformat"), "C09": _wrap(Formula, "formula")}
+TABLE = {"C21": _wrap(Calendar, "calendar"), "C22": _wrap(Grid, "grid"), "C23": _wrap(Lang, "lang"), "C34": _wrap(F4, "f4"), "C19": _wrap(NumberInput, "numinput"), "C20": _wrap(NumberFormat, "numformat"), "C09": _wrap(Formula, "formula"), "C29": _wrap(ColAttrs, "colattrs")}
